@@ -1,9 +1,10 @@
 CONSTANTS
   Libs <- MCLibs
-  Adds <- MCAdds
+  Scenarios <- MCScenarios
   LineInv <- MCLineInv
   RevMargins <- MCRevMargins
   MaxModes = 3
+  WideModes = 1
 INIT Init
 NEXT Next
 INVARIANT TypeOK
@@ -12,6 +13,7 @@ INVARIANT FixedModeVerdict
 INVARIANT InfPenaltyAlwaysBlocks
 INVARIANT CompositionHolds
 INVARIANT LineIsPristine
+INVARIANT ReverseOnOwnRoute
 INVARIANT RuleWellDefined
 INVARIANT SelectionUniqueUpToTies
 INVARIANT BlockedIffNoFeasible
